@@ -185,7 +185,8 @@ ApplyStates(c) == {<<<<5 % D(c), GOne>>>>, <<<<2, GOne>>>>, <<<<0, GOne>>, <<D(c
                    <<<<1, GOne>>, <<2, <<0, 2>>>>, <<4 % D(c), <<-1, 0>>>>>>}
 QApply == \E s \in {"A", "B"} : Filled(s) /\ ~Infinite(cfg) /\ \E st \in ApplyStates(cfg), meth \in {"naive", "SVD", "zip_up", "variational"} :
     LET v == VecOf(cfg, st)
-    IN Step([op |-> "apply", s |-> s, state |-> st, method |-> meth, den |-> VNorm2(v), w |-> TLCEval(MVec(Get(s).m, v))], A, B)
+    IN (meth = "variational" => NW(cfg) >= 3) /\      \* the two-site sweep engine needs more than two sites
+       Step([op |-> "apply", s |-> s, state |-> st, method |-> meth, den |-> VNorm2(v), w |-> TLCEval(MVec(Get(s).m, v))], A, B)
 
 \* propagators (only for slots that still know their terms)
 QUI == \E s \in {"A", "B"} : Filled(s) /\ AllMarkers(s) /\ Get(s).decls # <<>> /\ ~Infinite(cfg) /\ \E dt \in {<<0, 0>>, <<1, 0>>, <<0, -1>>, <<2, 1>>} :
